@@ -89,11 +89,14 @@ def mutated_valid(draw):
     return bytes(data)
 
 
-def _nest(depth):
+def _nest(depth, missing=None, slot="o"):
+    """A triple holding `depth` nested quoted triples; `missing` names a term left unset in the innermost one."""
     t = ("bnode", "x")
     stmt = {"s": t, "p": t, "o": t}
+    if missing:
+        stmt[missing] = None
     for _ in range(depth):
-        stmt = {"s": ("bnode", "a"), "p": ("bnode", "b"), "o": ("triple", stmt)}
+        stmt = {"s": ("bnode", "a"), "p": ("bnode", "b"), "o": ("bnode", "c"), slot: ("triple", stmt)}
     return stmt
 
 
@@ -121,8 +124,11 @@ def hostile(draw):
         frame = wire.f_len(1, wire.enc_row(("options", opts))) + wire.f_len(1, row)
         return wire.join_delimited([frame])
     if kind == "deep_nesting":
-        depth = draw(st.sampled_from([1, 10, 50, 99, 100, 101, 150, 300]))
-        rows = [("options", {**opts, "physical_type": 1}), ("triple", _nest(depth))]
+        depth = draw(st.sampled_from([1, 10, 25, 40, 60, 90, 98, 99, 100, 101, 150, 300]))
+        # complete nests, and nests whose innermost quoted triple lacks a term (an error found only at the bottom)
+        missing = draw(st.sampled_from([None, "s", "p", "o"]))
+        rows = [("options", {**opts, "physical_type": 1}),
+                ("triple", _nest(depth, missing, draw(st.sampled_from(["o", "s"]))))]
         return wire.enc_stream([{"rows": rows, "metadata": []}], True)
     if kind == "odd_options":
         rows = list(base_rows)
